@@ -544,6 +544,47 @@ theorem C10_env_chain_is_shipped (fuelF : Nat) (parse : String → Ty → Outcom
        stringCastMangler parse] := by
   rfl
 
+/-! ### Collections of structs: the recursive pass keeps "unset" and "explicitly empty" apart
+
+`maybeRecursivelyUnmangle` rebuilds a slice (array) of structs element by element.  A nil slice comes back nil;
+a list of `n` elements - in particular the EMPTY list, which in Dials means "set to empty" and overrides a
+lower layer - comes back as a list of exactly `n` elements.  (C14: an aliased `[]struct` field supplied as `[]`
+is a supplied field; C20: a wrapped source's empty list is not turned into "unset".) -/
+
+theorem C10_recurse_nil_slice (fuel : Nat) (m : Mangler) (h : Hdr) (e : Ty) :
+    recurseVal (fuel + 1) m (h, .slice e) .nilv = .ok .nilv := by
+  unfold recurseVal
+  by_cases hr : m.recurse = true
+  · cases hs : structish (.slice e) <;> simp [hr]
+  · simp [hr]
+
+theorem C10_recurse_list_length (fuel : Nat) (m : Mangler) (h : Hdr) (e : Ty) (vs : List Val) (r : Val)
+    (hok : recurseVal (fuel + 1) m (h, .slice e) (.list vs) = .ok r) :
+    ∃ rs, r = .list rs ∧ rs.length = vs.length := by
+  unfold recurseVal at hok
+  by_cases hr : m.recurse = true
+  · cases hs : structish (.slice e) with
+    | none => simp [hr, hs] at hok; exact ⟨vs, hok.symm, rfl⟩
+    | some p =>
+      simp only [hr, hs] at hok
+      simp only [Bool.not_true, Bool.false_eq_true, ↓reduceIte] at hok
+      generalize hm : mapM' _ vs = o at hok
+      cases o with
+      | ok rs =>
+        simp [Outcome.bind] at hok
+        exact ⟨rs, hok.symm, mapM'_length hm⟩
+      | err c => simp [Outcome.bind] at hok
+      | panic c => simp [Outcome.bind] at hok
+  · simp [hr] at hok; exact ⟨vs, hok.symm, rfl⟩
+
+/-- the explicitly empty list of structs stays an (empty) list: it is never turned into "unset" -/
+theorem C10_recurse_empty_list (fuel : Nat) (m : Mangler) (h : Hdr) (e : Ty) :
+    recurseVal (fuel + 1) m (h, .slice e) (.list []) = .ok (.list []) := by
+  unfold recurseVal
+  by_cases hr : m.recurse = true
+  · cases hs : structish (.slice e) <;> simp [hr, mapM', Outcome.bind]
+  · simp [hr]
+
 /-! ### Non-vacuity: concrete nested types and values on which the hypotheses of the corollaries hold
 and the round trip computes -/
 
